@@ -235,6 +235,9 @@ def run_walk(G, cl, ln, model, cfg, call):
             raise core.Failure("walk-did-not-stop", "more requests than entries")
 
 
+NOT_OURS = ("engine-id-not-learned", "get-engine-id-raised", "lost-probe-outcome", "refresh-failed", "no-discovery-probe", "message-count")
+
+
 def execute_highlevel(G, c):
     cfg = c["cfgs"][0]
     c = dict(c)
@@ -284,8 +287,9 @@ def run(rep, tier):
                 "1..3 sessions of mixed version+security in one process, each followed by an agent action (reply, big reply, reply that "
                 "moves boots/time, none, garbage); 25% through the real sync/async SnmpSession incl. fetch(allow_bulk, max_repetitions). "
                 "Non-trivial = a request emitted after >=1 earlier send and >=1 earlier receive of the same history (pooled buffers) or "
-                "using a long-form length; distinct by (cfgs, steps).")
-    rep.assumptions = ["strict reference decoder refber.parse_message", "v3 sessions here are created with a known engine id (discovery is C13)"]
+                "using a long-form length; distinct by (cfgs, steps).  Second stage: v3 sessions of the real clients that discover their "
+                "engine id (incl. first probe lost, refresh() retried), every later request checked for the session's user / flags / engine id / MAC.")
+    rep.assumptions = ["strict reference decoder refber.parse_message", "reference crypto refusm.py"]
 
     def body(c):
         info = execute_nb(G, c) if c["mode"] == "nb" else execute_highlevel(G, c)
@@ -297,10 +301,42 @@ def run(rep, tier):
         rep.count("walk_followup_requests_checked", info.get("walk_followups", 0))
 
     n = 2000 if tier == "quick" else 50000
-    core.run_hypothesis(rep, gen.case_strategy(build_case, 4096), body, n, describe=describe)
+    if core.run_hypothesis(rep, gen.case_strategy(build_case, 4096), body, n, describe=describe):
+        return
+    # Sessions that learn their engine id by discovery (real sync / async clients, also with the first probe lost and
+    # refresh() retried): every request after discovery must carry the session's user, security flags, engine id and a
+    # valid MAC / decryptable payload.  Generator and wire oracle are those of C13; a failure here is a request that does
+    # not carry the session's credentials, which is this property's statement.
+    from checks import c13
+
+    def body2(c):
+        try:
+            nmsg, _ = c13.execute(G, c)
+        except core.Failure as f:
+            if "TimeoutError" in f.message and f.signature in ("request-failed", "message-count", "refresh-failed", "lost-probe-outcome"):
+                nmsg, _ = c13.execute(G, c, slow=True)
+            elif f.signature in NOT_OURS:
+                # what a session reports about itself / whether discovery completes is C13's statement, not this one
+                rep.count("discovered_session_failures_left_to_C13")
+                return
+            else:
+                raise core.Failure("discovered-session:" + f.signature, f.message)
+        rep.case("disc:" + repr(c13.describe(c)), c["discovered"] and len(c["reqs"]) >= 1,
+                 classes=["mode:discovered-session", "driver:" + c["driver"]] + (["lost_first_probe"] if c.get("lost_probe") else []))
+        rep.count("requests_checked", nmsg)
+
+    def describe2(c):
+        d = c13.describe(c)
+        d["_stage"] = "discovered"
+        return d
+
+    core.run_hypothesis(rep, gen.case_strategy(c13.build_case, 1024), body2, 200 if tier == "quick" else 4000, describe=describe2)
 
 
 def replay(rep, case, body=None):
+    if case.get("_stage") == "discovered":
+        from checks import c13
+        return c13.replay(rep, case)
     G = drivers.load()
     c = {"mode": case["mode"], "cfgs": [gen.cfg_from_json(x) for x in case["_cfgs"]], "kw": case["kw"],
          "steps": [{"s": s["s"], "call": tuple(s["call"]), "action": s["action"], "p": s["p"]} for s in case["steps"]]}
